@@ -1175,8 +1175,8 @@ func H_C11_window() {
 }
 
 // C10 (simultaneous closes, sync-point hook): the client's Close is stopped in front of its k-th
-// synchronisation operation while the server closes its end, and the notifications travel in
-// either order. Both ends end up closed, neither stream stays active, every buffer is back.
+// synchronisation operation while the server closes its end (the notifications travel in
+// either order) or sends data that arrives meanwhile. Both ends end up closed, neither stream stays active, every buffer is back.
 func H_SM_closewindow() {
 	vfInfeasibleOK()
 	w := smSetup()
@@ -1188,10 +1188,17 @@ func H_SM_closewindow() {
 		w.send(0, false, 3) // an answer is under way (possibly never read)
 	}
 	cut := vfShape("cut", 0, 24)
-	adv := vfShape("adversary", 0, 2)
+	adv := vfShape("adversary", 0, 4)
 	fired := false
 	vfSyncHook(cut, func() {
 		fired = true
+		if adv >= 3 {
+			// data of the server reaches the client while its Close is under way: it has to be
+			// released, not kept
+			w.send(0, false, []int{3, 9}[adv-3])
+			w.deliverBA()
+			return
+		}
 		w.closeEnd(0, false)
 		switch adv {
 		case 1:
